@@ -4,12 +4,18 @@ theories/Base/Json.vos theories/Base/Json.vok theories/Base/Json.required_vos: t
 theories/Base/Res.vo theories/Base/Res.glob theories/Base/Res.v.beautified theories/Base/Res.required_vo: theories/Base/Res.v 
 theories/Base/Res.vio: theories/Base/Res.v 
 theories/Base/Res.vos theories/Base/Res.vok theories/Base/Res.required_vos: theories/Base/Res.v 
+theories/Corr/C05.vo theories/Corr/C05.glob theories/Corr/C05.v.beautified theories/Corr/C05.required_vo: theories/Corr/C05.v theories/Base/Json.vo theories/Base/Res.vo theories/Model/Msg.vo theories/Generated/Consts.vo theories/Corr/C06.vo
+theories/Corr/C05.vio: theories/Corr/C05.v theories/Base/Json.vio theories/Base/Res.vio theories/Model/Msg.vio theories/Generated/Consts.vio theories/Corr/C06.vio
+theories/Corr/C05.vos theories/Corr/C05.vok theories/Corr/C05.required_vos: theories/Corr/C05.v theories/Base/Json.vos theories/Base/Res.vos theories/Model/Msg.vos theories/Generated/Consts.vos theories/Corr/C06.vos
 theories/Corr/C06.vo theories/Corr/C06.glob theories/Corr/C06.v.beautified theories/Corr/C06.required_vo: theories/Corr/C06.v theories/Base/Json.vo theories/Base/Res.vo theories/Model/Msg.vo theories/Generated/Consts.vo
 theories/Corr/C06.vio: theories/Corr/C06.v theories/Base/Json.vio theories/Base/Res.vio theories/Model/Msg.vio theories/Generated/Consts.vio
 theories/Corr/C06.vos theories/Corr/C06.vok theories/Corr/C06.required_vos: theories/Corr/C06.v theories/Base/Json.vos theories/Base/Res.vos theories/Model/Msg.vos theories/Generated/Consts.vos
 theories/Generated/Consts.vo theories/Generated/Consts.glob theories/Generated/Consts.v.beautified theories/Generated/Consts.required_vo: theories/Generated/Consts.v theories/Base/Json.vo
 theories/Generated/Consts.vio: theories/Generated/Consts.v theories/Base/Json.vio
 theories/Generated/Consts.vos theories/Generated/Consts.vok theories/Generated/Consts.required_vos: theories/Generated/Consts.v theories/Base/Json.vos
+theories/Lemmas/ConstsSpec.vo theories/Lemmas/ConstsSpec.glob theories/Lemmas/ConstsSpec.v.beautified theories/Lemmas/ConstsSpec.required_vo: theories/Lemmas/ConstsSpec.v theories/Base/Json.vo theories/Base/Res.vo theories/Model/Msg.vo theories/Generated/Consts.vo
+theories/Lemmas/ConstsSpec.vio: theories/Lemmas/ConstsSpec.v theories/Base/Json.vio theories/Base/Res.vio theories/Model/Msg.vio theories/Generated/Consts.vio
+theories/Lemmas/ConstsSpec.vos theories/Lemmas/ConstsSpec.vok theories/Lemmas/ConstsSpec.required_vos: theories/Lemmas/ConstsSpec.v theories/Base/Json.vos theories/Base/Res.vos theories/Model/Msg.vos theories/Generated/Consts.vos
 theories/Lemmas/MsgL.vo theories/Lemmas/MsgL.glob theories/Lemmas/MsgL.v.beautified theories/Lemmas/MsgL.required_vo: theories/Lemmas/MsgL.v theories/Base/Json.vo theories/Base/Res.vo theories/Model/Msg.vo theories/Lemmas/Tactics.vo
 theories/Lemmas/MsgL.vio: theories/Lemmas/MsgL.v theories/Base/Json.vio theories/Base/Res.vio theories/Model/Msg.vio theories/Lemmas/Tactics.vio
 theories/Lemmas/MsgL.vos theories/Lemmas/MsgL.vok theories/Lemmas/MsgL.required_vos: theories/Lemmas/MsgL.v theories/Base/Json.vos theories/Base/Res.vos theories/Model/Msg.vos theories/Lemmas/Tactics.vos
@@ -19,6 +25,9 @@ theories/Lemmas/Tactics.vos theories/Lemmas/Tactics.vok theories/Lemmas/Tactics.
 theories/Model/Msg.vo theories/Model/Msg.glob theories/Model/Msg.v.beautified theories/Model/Msg.required_vo: theories/Model/Msg.v theories/Base/Json.vo theories/Base/Res.vo
 theories/Model/Msg.vio: theories/Model/Msg.v theories/Base/Json.vio theories/Base/Res.vio
 theories/Model/Msg.vos theories/Model/Msg.vok theories/Model/Msg.required_vos: theories/Model/Msg.v theories/Base/Json.vos theories/Base/Res.vos
+theories/Props/C05.vo theories/Props/C05.glob theories/Props/C05.v.beautified theories/Props/C05.required_vo: theories/Props/C05.v theories/Base/Json.vo theories/Base/Res.vo theories/Model/Msg.vo theories/Generated/Consts.vo theories/Lemmas/MsgL.vo theories/Lemmas/ConstsSpec.vo
+theories/Props/C05.vio: theories/Props/C05.v theories/Base/Json.vio theories/Base/Res.vio theories/Model/Msg.vio theories/Generated/Consts.vio theories/Lemmas/MsgL.vio theories/Lemmas/ConstsSpec.vio
+theories/Props/C05.vos theories/Props/C05.vok theories/Props/C05.required_vos: theories/Props/C05.v theories/Base/Json.vos theories/Base/Res.vos theories/Model/Msg.vos theories/Generated/Consts.vos theories/Lemmas/MsgL.vos theories/Lemmas/ConstsSpec.vos
 theories/Props/C06.vo theories/Props/C06.glob theories/Props/C06.v.beautified theories/Props/C06.required_vo: theories/Props/C06.v theories/Base/Json.vo theories/Base/Res.vo theories/Model/Msg.vo theories/Lemmas/MsgL.vo
 theories/Props/C06.vio: theories/Props/C06.v theories/Base/Json.vio theories/Base/Res.vio theories/Model/Msg.vio theories/Lemmas/MsgL.vio
 theories/Props/C06.vos theories/Props/C06.vok theories/Props/C06.required_vos: theories/Props/C06.v theories/Base/Json.vos theories/Base/Res.vos theories/Model/Msg.vos theories/Lemmas/MsgL.vos
